@@ -466,6 +466,15 @@ def step (line : String) : String :=
     | some e, some m => "ok " ++ showBool (e.value m) | _, _ => "bad-op")
   | ["ecube", "xor", a, b] => (match parseEcube a, parseEcube b with
     | some a, some b => "ok " ++ showEcube (Ecube.xor a b) | _, _ => "bad-op")
+  -- derived Eq / Ord: (vars, xnor) for exclusive cubes, (pos, neg) for cubes
+  | ["ecube", "cmp", a, b] => (match parseEcube a, parseEcube b with
+    | some a, some b =>
+      s!"ok {showBool (decide (a = b))} {if a = b then "eq" else if Optim.ecubeLe a b then "lt" else "gt"}"
+    | _, _ => "bad-op")
+  | ["cube", "cmp", a, b] => (match parseCube a, parseCube b with
+    | some a, some b =>
+      s!"ok {showBool (decide (a = b))} {if a = b then "eq" else if Cube.le a b then "lt" else "gt"}"
+    | _, _ => "bad-op")
   | ["ecube", "not", a] => (match parseEcube a with
     | some a => "ok " ++ showEcube (Ecube.not a) | _ => "bad-op")
   | ["ecube", "fromvars", p, x] => (match parseNats p with
